@@ -152,6 +152,7 @@ struct TreeWorld : World {
         (void)g;
         return op;
     }
+    bool result_is_ambiguous(const Op &op) const override { return op.k == T_CLEAR; }
     bool is_mutation(const Op &op) const override { return op.k == T_PUT || op.k == T_REMOVE || op.k == T_CLEAR || op.k == T_BULK; }
 
     // ---------------- universe
@@ -345,9 +346,18 @@ struct TreeWorld : World {
                 std::vector<Bytes> seen;
                 int limit = op.c > 0 ? op.c : -1; bool stopped = false;
                 size_t guard = t->size(t) * 2 + 8;
+                int fired_before = sim_fault_fired();
                 for (;;) {
                     if (limit >= 0 && (int)seen.size() >= limit) { stopped = true; break; }
                     bool more; TCALL(x, more = t->getnext(t, &o, false));
+                    if (!more && sim_fault_fired() > fired_before) {
+                        // a step gave up under the injected failure: the operation reports failure; leave no walk unfinished
+                        sim_fault_suspend(true);
+                        qtreetbl_obj_t c; memset(&c, 0, sizeof c); size_t g2 = 0;
+                        for (;;) { bool m2; TCALL(x, m2 = t->getnext(t, &c, false)); if (!m2 || ++g2 > guard) break; }
+                        sim_fault_suspend(false);
+                        return R_fail(out);
+                    }
                     if (!more) break;
                     Bytes e; enc(e, canon(Bytes((const char *)o.name, o.namesize))); enc(e, Bytes((const char *)o.data, o.datasize));
                     seen.push_back(e);
@@ -404,25 +414,28 @@ struct TreeWorld : World {
             if (t->tid == 255 || t->tid == 0) x.st.add("probe.epoch_wrap");
         }
 #endif
+        // a step reported failure (ENOMEM): so does the walk; bring the traversal state back to "no walk unfinished" with a
+        // complete fault-free walk so that the history stays comparable with the model
+        auto give_up = [&]() {
+            walk_failed = true;
+            unfinished = unfinished_at_entry;     // the model is rolled back to its state before a failed operation
+            sim_fault_suspend(true);
+            qtreetbl_obj_t c; memset(&c, 0, sizeof c); size_t g2 = 0;
+            for (;;) { bool m2; TCALL(x, m2 = t->getnext(t, &c, false)); if (!m2 || ++g2 > guard) break; }
+            sim_fault_suspend(false);
+        };
         for (;;) {
-            if (limit >= 0 && cnt >= limit) { if (stopped) *stopped = true; return out; }
+            if (limit >= 0 && cnt >= limit) { if (retries) { give_up(); return out; } if (stopped) *stopped = true; return out; }
+            void *n0 = o.name, *d0 = o.data;
             bool more; TCALL(x, more = t->getnext(t, &o, newmem));
-            if (!more && newmem && sim_fault_fired() > fired_seen && retries < 1) {
-                // a step that reported ENOMEM must not have consumed the element: the client tries again with the same cursor
+            if (!more && sim_fault_fired() > fired_seen) { check_cursor_ptr(x, "name", n0, o.name); check_cursor_ptr(x, "data", d0, o.data); }
+            if (!more && sim_fault_fired() > fired_seen && retries < 1) {
+                // the client tries once more with the same cursor: this only probes that the cursor is still safe to use
                 fired_seen = sim_fault_fired(); retries++; x.st.add("probe.walk_step_retried_after_enomem");
                 continue;
             }
             if (!more) {
-                if (sim_fault_fired() > fired_seen && newmem) {
-                    // the step reported failure (ENOMEM): the walk is over for the caller; bring the traversal state back to
-                    // "no walk unfinished" with a complete fault-free walk so that the history stays comparable with the model
-                    walk_failed = true;
-                    unfinished = unfinished_at_entry;     // the model is rolled back to its state before a failed operation
-                    sim_fault_suspend(true);
-                    qtreetbl_obj_t c; memset(&c, 0, sizeof c); size_t g2 = 0;
-                    for (;;) { bool m2; TCALL(x, m2 = t->getnext(t, &c, false)); if (!m2 || ++g2 > guard) break; }
-                    sim_fault_suspend(false);
-                }
+                if (sim_fault_fired() > fired_seen || retries) give_up();
                 break;
             }
             Bytes k, v;
